@@ -12,15 +12,21 @@
    string the scanner reads as exactly one member, whatever follows it and whatever the lookup cache holds
    (scan_one_app, scan_one_factor): padded keys, padded lengths, padded varints, packed or unpacked
    arrival are all records.
-   NOT proved as one statement: "every valid encoding of a value" needs a specification of all valid
-   encodings of a value (the reference's reading of them); the pieces above are what that statement is made
-   of, and the whole is decided against libprotobuf by the check: shuffled / padded / repacked / mixed /
-   split encodings produced by the Python reference encoder, parsed by protobuf-c, by the extracted model and
-   by libprotobuf, results compared.  Hence some theorem names ending in _partial. *)
+   EVERY VALID ENCODING (Spec/WireRaw.v, Impl/SpecParse.v, Proofs/SpecRefine0-5.v): the reading of a byte string under a
+   schema is written as a specification -- the reference reader splits the bytes into records, the records are folded in
+   order into a fresh message (last value wins, sub-message occurrences merge, repeated fields append element-wise or
+   packed whichever way they are declared, a oneof member replaces the one chosen before, unknown records are retained,
+   every required field must occur), with the primitives of Spec/Wire.v -- and protobuf_c_message_unpack is proved to
+   return exactly that reading whenever there is one.  The specification rejects (reads nothing from) some inputs
+   protobuf-c accepts: wire types that do not fit, a bool sent with another wire type, varints overflowing 64 bits,
+   keys / lengths longer than 5 bytes, packed bool elements that are padded varints (there the implementation sizes the
+   array per byte: same value, larger allocation; machine-checked counter-example to the laxer specification).  That the
+   specification's reading is the REFERENCE's reading is decided by the tie: every re-encoding produced by the Python
+   reference encoder is read by the extracted specification, by protobuf-c and by libprotobuf; all must agree. *)
 From Coq Require Import ZArith List Bool.
 From PBC Require Import Base.CInt Gen.LeafC Spec.Wire Impl.Desc Impl.Mem Impl.Enc Impl.Pack Impl.Unpack Impl.Canon
-     Proofs.LeafDec Proofs.MsgRT4 Proofs.Merge Proofs.Commute Proofs.Reorder Proofs.PrefixStable Proofs.Records Proofs.Examples.
-From PBC Require Proofs.LeafSafe Proofs.Required.
+     Proofs.LeafDec Proofs.MsgRT4 Proofs.Merge Proofs.Commute Proofs.Reorder Proofs.PrefixStable Proofs.Records Proofs.Examples Impl.SpecParse.
+From PBC Require Proofs.LeafSafe Proofs.Required Proofs.SpecRefine0 Proofs.SpecRefine5.
 Import ListNotations.
 Local Open Scope Z_scope.
 
@@ -140,3 +146,28 @@ Theorem C04_field_order_nonvacuous :
   unpack_top ex_env 0 ([8;150;1] ++ [8;7]) <> unpack_top ex_env 0 ([8;7] ++ [8;150;1]).
 Proof. exact (conj ex_swap_ab_accepted (conj same_field_not_indep same_field_order_matters)). Qed.
 Print Assumptions C04_field_order_nonvacuous.
+
+(* ---- every valid encoding: the implementation returns the specification's reading *)
+Theorem C04_every_valid_encoding_is_read_as_specified : forall (E : env) (d : nat) (b : list Z) (m : msg),
+  env_ok E = true -> LeafSafe.bytes b -> Mem.zlen b <= 268435425 ->
+  spec_parse_top E d b = Some m -> unpack_top E d b = Ok m.
+Proof. exact SpecRefine5.spec_parse_refined. Qed.
+Print Assumptions C04_every_valid_encoding_is_read_as_specified.
+
+(* non-vacuous: the specification reads the canonical encoding of the example message, and a NON-canonical encoding (fields
+   out of order, a padded key and a padded value, a packable field sent unpacked and then packed, an unknown field) *)
+Theorem C04_specification_reads_canonical_and_noncanonical_encodings :
+  (exists b, pack_msg ex_env ex_msg = Ok b /\ spec_parse_top ex_env 0 b = Some ex_msg) /\
+  (exists m, spec_parse_top ex_env 0 SpecRefine5.ex_bytes = Some m /\ unpack_top ex_env 0 SpecRefine5.ex_bytes = Ok m /\
+             pack_msg ex_env m <> Ok SpecRefine5.ex_bytes).
+Proof. exact (conj SpecRefine5.spec_reads_ex_msg SpecRefine5.spec_reads_noncanonical). Qed.
+Print Assumptions C04_specification_reads_canonical_and_noncanonical_encodings.
+
+(* why packed bool elements must be single bytes in the specification: with 10-byte elements allowed (Lax) the
+   specification reads [10;2;128;0] as one element in an array of one, protobuf-c allocates an array of two *)
+Theorem C04_laxer_specification_is_not_refined :
+  ~ (forall (E : env) (d : nat) (b : list Z) (m : msg),
+       env_ok E = true -> LeafSafe.bytes b -> Mem.zlen b <= 268435425 ->
+       SpecRefine0.Lax.spec_parse_top E d b = Some m -> unpack_top E d b = Ok m).
+Proof. exact SpecRefine0.lax_not_refined. Qed.
+Print Assumptions C04_laxer_specification_is_not_refined.
